@@ -9,7 +9,10 @@ Variable I : est -> Prop.
 Hypothesis I_wr : forall x st, I st -> I (wr x st).
 Hypothesis I_set_local : forall l st, I st -> I (set_local st l).
 Hypothesis I_after_var : forall st, I st -> I (after_var st).
-Hypothesis I_reset : forall st, I st -> I (reset_var_name st).
+(** [reset_var_name] is used by template declarations only: an invariant that does not survive it can still be
+    had for trees without them (set [allow_reset] to [False]) *)
+Variable allow_reset : Prop.
+Hypothesis I_reset : allow_reset -> forall st, I st -> I (reset_var_name st).
 Hypothesis I_fail : forall m st, I st -> I (fail_with m st).
 (** the three shapes in which a fragment is written and recorded: the token's literal; for a `-` line the
     literal without surrounding white space; for a `?` attribute the attribute's value *)
@@ -83,7 +86,7 @@ Ltac inv1 :=
   | |- I (set_unesc _ _) => apply set_unesc_inv
   | |- I (write_formatted_text _ _ _) => apply write_formatted_text_inv
   | |- I (after_var _) => apply I_after_var
-  | |- I (reset_var_name _) => apply I_reset
+  | |- I (reset_var_name _) => apply I_reset; [assumption|]
   | |- I (set_local _ _) => apply I_set_local
   end.
 Ltac inv := repeat inv1.
@@ -140,9 +143,10 @@ Lemma fold_inv {A} (f : est -> A -> est) (l : list A) : (forall st a, I st -> I 
 Proof. intro Hf. induction l as [|x l IH]; intros st H; [exact H|]. cbn [fold_left]. apply IH. apply Hf. exact H. Qed.
 
 Lemma body_inv sm ec k ch next nc st :
+  match k with KGoht _ => allow_reset | _ => True end ->
   (forall nc0 s0, I s0 -> I (ec ch nc0 s0)) -> I st -> I (fst (emit_node_body sm ec k ch next nc st)).
 Proof.
-  intros Hec H. unfold emit_node_body.
+  intros Hal Hec H. unfold emit_node_body.
   Ltac invx Hec :=
     repeat first
     [ inv1
@@ -177,19 +181,35 @@ Proof.
     destruct (beqb (t_lit origin) (lit "plain") || beqb (t_lit origin) (lit "preserve")), (beqb (t_lit origin) (lit "preserve")); invx Hec.
 Qed.
 
-Definition node_inv_at (sm : bool) (n : node) : Prop := forall next nc st, I st -> I (fst (emit_node sm n next nc st)).
+Fixpoint goht_ok (n : node) : Prop :=
+  match n with
+  | Node k ch =>
+    match k with KGoht _ => allow_reset | _ => True end /\
+    (fix all (l : list node) : Prop := match l with [] => True | c :: r => goht_ok c /\ all r end) ch
+  end.
 
-Lemma list_inv sm (l : list node) : Forall (node_inv_at sm) l -> forall nc st, I st -> I (emit_list sm l nc st).
+Definition node_inv_at (sm : bool) (n : node) : Prop :=
+  goht_ok n -> forall next nc st, I st -> I (fst (emit_node sm n next nc st)).
+
+Lemma list_inv sm (l : list node) : Forall (node_inv_at sm) l ->
+  (fix all (l : list node) : Prop := match l with [] => True | c :: r => goht_ok c /\ all r end) l ->
+  forall nc st, I st -> I (emit_list sm l nc st).
 Proof.
-  induction 1 as [|c rest Hc _ IH]; intros nc st H; [exact H|].
-  cbn [emit_list]. pose proof (Hc (hd_error rest) nc st H) as H1.
-  destruct (emit_node sm c (hd_error rest) nc st) as [s1 f1]. cbn [fst] in H1. apply IH. exact H1.
+  induction 1 as [|c rest Hc _ IH]; intros Hok nc st H; [exact H|]. destruct Hok as [Hc1 Hr].
+  cbn [emit_list]. pose proof (Hc Hc1 (hd_error rest) nc st H) as H1.
+  destruct (emit_node sm c (hd_error rest) nc st) as [s1 f1]. cbn [fst] in H1. apply IH; assumption.
 Qed.
 
 Theorem emit_node_inv sm n : node_inv_at sm n.
 Proof.
-  induction n as [k ch IH] using node_ind2. intros next nc st H.
-  rewrite emit_node_unfold. apply body_inv; [|exact H]. intros nc0 s0 H0. apply list_inv; assumption.
+  induction n as [k ch IH] using node_ind2. intros [Hk Hch] next nc st H.
+  rewrite emit_node_unfold. apply body_inv; [exact Hk| |exact H]. intros nc0 s0 H0. apply list_inv; assumption.
 Qed.
 
 End Inv.
+
+Lemma goht_ok_True n : goht_ok True n.
+Proof.
+  induction n as [k ch IH] using node_ind2. cbn [goht_ok]. split; [destruct k; exact I|].
+  induction IH as [|c r Hc _ IHr]; [exact I|split; assumption].
+Qed.
